@@ -61,7 +61,14 @@ fn exec_e3(j: &J) -> Result<RunOut, String> {
         add_stats(&mut out, &r.stats);
         h.u64(r.hash());
         let js = r.json.as_ref().ok_or("single run wrote no json")?;
-        match score_of_json(&sc, js)? {
+        let loaded = match score_of_json(&sc, js) {
+            Ok(x) => x,
+            Err(e) => {
+                out.violate(Violation::new("written-structure-invalid", i as u64, format!("the structure written for replica {} alone cannot be loaded: {}", i, e)));
+                return Ok(out);
+            }
+        };
+        match loaded {
             Some(s) => scores.push(s),
             None => {
                 out.violate(Violation::new("written-structure-invalid", i as u64, format!("the structure written for replica {} alone has no score", i)));
@@ -101,7 +108,14 @@ fn exec_e3(j: &J) -> Result<RunOut, String> {
             }
         };
         let _ = sv;
-        let written = match score_of_json(&sck, js)? {
+        let loaded = match score_of_json(&sck, js) {
+            Ok(x) => x,
+            Err(e) => {
+                out.violate(Violation::new("written-structure-invalid", k, format!("{} replications: the written structure cannot be loaded: {}", k, e)));
+                break;
+            }
+        };
+        let written = match loaded {
             Some(s) => s,
             None => {
                 out.violate(Violation::new("written-structure-invalid", k, format!("{} replications: the written structure has no score", k)));
@@ -252,6 +266,7 @@ fn exec_e4(j: &J) -> Result<RunOut, String> {
         kt_ratio: None,
         max_step_size: 0.0,
         convergence: None,
+        stale_output: false,
     };
     match (score_of_json(&rs, text.as_bytes()), r.final_score_text.as_ref().and_then(|t| t.parse::<f64>().ok())) {
         (Ok(Some(w)), Some(l)) => {
